@@ -469,4 +469,33 @@ pub fn run_case(ctx: &mut Ctx, fam: &str, k: u64, r: &mut Rng) {
             format!("{}\nprogram: {}\nseed: {:?}", f.detail, p.pretty(), seed),
         );
     }
+    // convolution: right afterwards the same filters on an image one row taller (or shorter) / one column wider - what
+    // the previous call computed about its geometry is of no use to this one
+    if let OpKind::Conv { .. } = case.kind {
+        if o.failures.is_empty() {
+            let mut sib = OpCase { same: false, kind: case.kind.clone(), dims: case.dims.clone(), vals: case.vals.clone(), mask: case.mask.clone(), cell: case.cell.clone() };
+            let nd = sib.dims[0].len();
+            let fr = sib.dims[1][2];
+            if r.chance(1, 2) {
+                sib.dims[0][nd - 2] = if sib.dims[0][nd - 2] > fr && r.chance(1, 2) { sib.dims[0][nd - 2] - 1 } else { sib.dims[0][nd - 2] + 1 };
+            } else {
+                sib.dims[0][nd - 1] += 1;
+            }
+            sib.vals[0] = rand_ints(r, numel(&sib.dims[0]), -2, 2);
+            let p2 = sib.program();
+            if let Some(rr2) = eval_ref_plain(&p2) {
+                let seed2 = rand_seed(r, rr2.vals[p2.root()].v.len());
+                let o2 = run_and_check(&p2, &seed2, &CheckOpts::default());
+                ctx.count("conv_sibling_cases", 1);
+                ctx.count("gradients_compared", o2.grads_compared);
+                for f in &o2.failures {
+                    let cls = if f.kind.ends_with("panic") { format!("{}:{}", f.kind, panic_class(&f.detail.split("panicked: ").nth(1).unwrap_or(""))) } else { f.kind.clone() };
+                    ctx.violation(
+                        &format!("C02|{}|after-another-image-size|{}", case.cell, cls),
+                        format!("{}\nprogram (run right after the same convolution on an image of dims {:?}): {}\nseed: {:?}", f.detail, case.dims[0], p2.pretty(), seed2),
+                    );
+                }
+            }
+        }
+    }
 }
